@@ -194,6 +194,10 @@ def _work(args):
                                                       'stmt': s, 'status': st, 'detail': detail})
                         continue
                     cnt(st)
+                    if st == 'exec_error':
+                        ee = out.setdefault('exec_errors', {})
+                        k = '%s | %s' % (s.get('tag'), (detail.get('reason') or '')[:90])
+                        ee[k] = ee.get(k, 0) + 1
                     if detail.get('plan'):
                         pk = '>'.join(detail['plan'])
                         out.setdefault('plans', {})
@@ -258,6 +262,10 @@ def run(report, units, configs=None, workers=None, timeout=30, chunk=None):
             for vt, n in out.get('viol_tags', {}).items():
                 d = report.extra.setdefault('violations_by_tag', {})
                 d[vt] = d.get(vt, 0) + n
+            for k, n in out.get('exec_errors', {}).items():
+                d = report.extra.setdefault('exec_errors_by_tag', {})
+                if k in d or len(d) < 40:
+                    d[k] = d.get(k, 0) + n
             for pk, n in out.get('plans', {}).items():
                 pl = report.extra.setdefault('plans_observed', {})
                 pl[pk] = pl.get(pk, 0) + n
